@@ -10,10 +10,10 @@ from fractions import Fraction
 from irsym import term as T
 from pool import OPS, EXPRS, Ins
 
-ELEMENTWISE = set(range(0, 12)) | {16, 17, 18, 19, 20}
-CONSUMES1 = {1, 3, 5, 7, 9, 11, 17, 19}
-CONSUMES2 = {2, 3, 18, 19}
-ARITY2 = {0, 1, 2, 3, 4, 5, 12, 13, 14, 16, 17, 18, 19, 20}
+ELEMENTWISE = set(range(0, 12)) | {16, 17, 18, 19, 20, 21, 22, 23}
+CONSUMES1 = {1, 3, 5, 7, 9, 11, 17, 19, 22, 23}
+CONSUMES2 = {2, 3, 18, 19, 21, 23}
+ARITY2 = {0, 1, 2, 3, 4, 5, 12, 13, 14, 16, 17, 18, 19, 20, 21, 22, 23}
 
 
 class Throw(Exception):
@@ -171,8 +171,8 @@ class Model:
                 r = [T.fmul(c, x) for x in a]
             elif e in (16, 17, 18, 19):
                 r = [T.fmul(x, y) for x, y in zip(a, b)]
-            elif e == 20:
-                r = [T.fadd(T.fmul(x, y), x) for x, y in zip(a, b)]
+            elif e in (20, 21, 22, 23):
+                r = [T.fadd(T.fmul(x, y), x) for x, y in zip(a, b)]       # the user operation a*b+a is not commutative: operand order matters
             elif e in (12, 13, 14, 15) and self.kernel is not None:
                 # non-element-wise operations: the value of op(a,b) evaluated into a fresh temporary (twin execution of the real kernel)
                 r = self.kernel(e, d1, a, b if e in ARITY2 else None, c, list(self.bufs[ins.ext][:d1 * (d1 - 1)]) if e == 15 else None)
